@@ -76,9 +76,12 @@ def perfpow(u):
         if rt ** k == a: return True
     return False
 
-SM = [2, 3, 5, 7, 11, 13, 17, 19, 23, 29, 31, 37]
+SM = [2, 3, 5, 7, 11, 13, 17, 19, 23, 29, 31, 37, 41]
+PSI13 = 3317044064679887385961981
 def isprime64(n):
-    """deterministic below 3.3e24 (12 prime bases)"""
+    """deterministic below psi_13 = 3317044064679887385961981 (first 13 prime bases; Sorenson-Webster 2015).
+    Callers must not rely on it at or above that bound."""
+    assert n < PSI13, 'isprime64 is only deterministic below psi_13'
     if n < 2: return False
     for q in SM:
         if n % q == 0: return n == q
@@ -244,7 +247,7 @@ def selftest():
     assert perfpow(64) and perfpow(-27) and not perfpow(-64 + 1) and perfpow(-64) and not perfpow(-16) and not perfpow(12)
     try:
         import sympy
-        for n in list(range(0, 3000)) + [r.getrandbits(r.randint(10, 64)) for _ in range(500)] + [3215031751, 341550071728321, 3825123056546413051, 2 ** 61 - 1]:
+        for n in list(range(0, 3000)) + [r.getrandbits(r.randint(10, 64)) for _ in range(500)] + [3215031751, 341550071728321, 3825123056546413051, 2 ** 61 - 1, 318665857834031151167461, 399165290221 * 798330580441]:
             assert isprime64(n) == sympy.isprime(n), n
     except ImportError:
         sm = set(primes_upto(3000))
